@@ -112,26 +112,12 @@ def traceStr (passes : List (List (Nat × Event))) : String :=
   " ".intercalate (passes.zipIdx.map fun x =>
     " ".intercalate (("P" ++ toString (x.2 + 1)) :: x.1.reverse.map (fun e => evTok e.1 e.2)))
 
-/-- Pass loop of the driver = `runLoop`, plus the `Float` cross-check of
-`thread_max_pws` at each pass. Returns `none` if `tdiv` and `f64` disagree. -/
-def floatOk (c : Cfg) (pw : List Int) : Bool :=
-  pw.all fun x => floatShare c.maxPw x c.threadCount == some (x + Int.tdiv (c.maxPw - x) c.threadCount)
-
-def runChecked (c : Cfg) (fuel : Nat) : Nat → State → List (List Nat) → List (List (Nat × Event)) →
-    Option (Outcome × List (List (Nat × Event)))
-  | 0, _, _, acc => some (.fuel, acc.reverse)
-  | passes + 1, s, scheds, acc =>
-    if !floatOk c s.pw then none else
-    let s1 := beginPass c s
-    let (s2, tr) := runSchedule c s1 (scheds.headD []) []
-    match finishPass c fuel s2 tr with
-    | none => some (.fuel, (tr :: acc).reverse)
-    | some (s3, tr3) =>
-      if s3.tasks.any (fun t => t.pc == .panic) then some (.panic, (tr3 :: acc).reverse)
-      else
-        let (s4, again) := endPass c s3
-        if again then runChecked c fuel passes s4 scheds.tail (tr3 :: acc)
-        else some (.ok s4.parts { s4.md with verticesPerThread := c.ipt }, (tr3 :: acc).reverse)
+/-- `Int.tdiv` agrees with the `f64` quotient the code evaluates for EVERY value
+`part_weights[p]` can take in a run (`0 ..= total weight`: the tracked weights are the true
+loads, `Inv2.loadAcct`), so the model's `thread_max_pws` are the code's at every pass. -/
+def floatOk (c : Cfg) (total : Nat) : Bool :=
+  (List.range (total + 1)).all fun x =>
+    floatShare c.maxPw x c.threadCount == some ((x : Int) + Int.tdiv (c.maxPw - x) c.threadCount)
 
 def handle (toks : List String) : String :=
   let secs := sections toks
@@ -146,13 +132,13 @@ def handle (toks : List String) : String :=
       | none => "panic"
       | some maxPw =>
         let c := mkCfg i.g i.w i.parts maxPw i.threads
-        match runChecked c 1000000 10000 (initState c i.parts) scheds [] with
-        | none => "skip float-division-differs"
-        | some (.ok ids md, tr) =>
+        if !floatOk c i.w.sum.toNat then "skip float-division-differs" else
+        match run c i.parts scheds 1000000 10000 with
+        | (.ok ids md, tr) =>
           "ok T=" ++ toString c.threadCount ++ " ipt=" ++ toString c.ipt ++ " ids=" ++ idsStr ids ++
             " md=" ++ mdStr md ++ " tr=" ++ traceStr tr
-        | some (.panic, _) => "panic"
-        | some (.fuel, _) => "fuel"
+        | (.panic, _) => "panic"
+        | (.fuel, _) => "fuel"
     | _, _ => "bad-op"
   | ["seq", n, imb] =>
     if body.length != 5 then "bad-op" else
@@ -163,7 +149,7 @@ def handle (toks : List String) : String :=
       | none => "panic"
       | some maxPw =>
         let c := mkCfg i.g i.w i.parts maxPw 1
-        if !floatOk c (Coupe.loads i.w i.parts pc) then "skip float-division-differs" else
+        if !floatOk c i.w.sum.toNat then "skip float-division-differs" else
         match runSeq i.g i.w i.parts maxPw 1 1000000 10000 with
         | .ok ids md => "ok ids=" ++ idsStr ids ++ " md=" ++ mdStr md
         | .panic => "panic"
